@@ -18,6 +18,7 @@ from ._mapspec import MapSpec
 from ._result import DirectValue
 from ._shapes import external_shape_from_mask, internal_shape_from_mask, map_shapes
 from ._storage_array._base import StorageBase, get_storage_class
+from ._storage_array._dict import DictArray, SharedMemoryDictArray
 
 if TYPE_CHECKING:
     from pipefunc import Pipeline
@@ -100,7 +101,14 @@ class RunInfo:
             raise ValueError(msg)
         return get_storage_class(storage)
 
-    def init_store(self) -> dict[str, StoreType]:
+    def init_store(self, *, in_process: bool = False) -> dict[str, StoreType]:
+        """Create the storage objects (or file paths) of every output.
+
+        With ``in_process=True`` (reading results, as `load_outputs` does) nothing is shared
+        with worker processes, and an output kept in a shared-memory dict is opened as a plain
+        `DictArray` on the same persisted file: no manager process is started and the loaded
+        values are not pickled into one.
+        """
         store: dict[str, StoreType] = {}
         name_mapping = {at_least_tuple(name): name for name in self.shapes}
         # Initialize StorageBase instances for each map spec output
@@ -110,11 +118,14 @@ class RunInfo:
             if mapspec.inputs:
                 shape = self.shapes[output_name]
                 mask = self.shape_masks[output_name]
+                storage_class = self.storage_class(output_name)
+                if in_process and issubclass(storage_class, SharedMemoryDictArray):
+                    storage_class = DictArray
                 arrays = _init_arrays(
                     output_name,
                     shape,
                     mask,
-                    self.storage_class(output_name),
+                    storage_class,
                     self.run_folder,
                 )
                 store.update(zip(mapspec.output_names, arrays))
